@@ -8,15 +8,16 @@ from d42 import schema, validate
 from d42.declaration import DeclarationError
 from d42.declaration.types import ListSchema, Schema
 
-MODULE = "D42.Props.C10"
+MODULE = "D42.Props.C10Containers"
 THEOREMS = ["decl_error_kind", "decl_run_error_kind", "redeclare_rejected", "ok_means_unguarded", "fresh_selfConsistent",
             "decl_preserves_selfConsistent", "selfConsistent_nan_counterexample",
+            "runScalar_selfConsistent", "pinned_conforms", "pinned_validates", "built_example",
             "D42.Gen.Guards.writes_guarded", "D42.Gen.Guards.conflict_symmetric", "D42.Gen.Guards.value_blocks_nothing"]
-FILES = ["D42/Model/Data.lean", "D42/Model/Validate.lean", "D42/Model/Decl.lean", "D42/Gen/Guards.lean", "D42/Spec/Conforms.lean", "D42/Props/C02.lean", "D42/Props/C10.lean"]
+FILES = ["D42/Model/Data.lean", "D42/Model/Validate.lean", "D42/Model/Decl.lean", "D42/Gen/Guards.lean", "D42/Spec/Conforms.lean", "D42/Props/C02.lean", "D42/Props/C10.lean", "D42/Props/C06.lean", "D42/Props/C08.lean", "D42/Props/C10Containers.lean"]
 
 EVIDENCE = dict(
     level="proof",
-    checker_cmd="lake build D42.Props.C10 D42.Gen.Guards d42model && lake env lean <#print axioms audit>",
+    checker_cmd="lake build D42.Props.C10Containers D42.Gen.Guards d42model && lake env lean <#print axioms audit>",
     trusted=["Lean kernel; standard axioms", "D42/Gen/Guards.lean regenerated from d42/declaration/types/*.py on this run (ast extractor, "
              "idioms: `if <atoms or-ed>: raise make_already_declared_error(self)`, `props.update(k=...)`)",
              "declaration model tied to the code by the chain-outcome correspondence of this run"],
@@ -145,10 +146,13 @@ def replay(path):
 
 MANIFEST = dict(
     category="proof",
-    technique="Lean 4 theorems decl_error_kind / redeclare_rejected over the declaration model + guard tables regenerated from "
+    technique="Lean 4 theorems decl_error_kind / redeclare_rejected / decl_preserves_selfConsistent / pinned_conforms over the declaration model + guard tables regenerated from "
               "the source (ast translator, facts by `decide`) + chain-outcome correspondence",
     text="Theorems in Props/C10.lean: every failure of a refinement call in the model is DeclarationError for arguments of any "
-         "type, and a call whose guarded props are already declared is rejected; the already-declared guards are extracted from "
+         "type, and a call whose guarded props are already declared is rejected; an accepted call keeps the fixed value of a scalar "
+         "conforming (decl_preserves_selfConsistent, runScalar_selfConsistent for chains), and (Props/C10Containers.lean, "
+         "pinned_conforms) the completely pinned value of any element list / key table built by any accepted chain conforms to the "
+         "schema at every nesting depth; the already-declared guards are extracted from "
          "the current source into D42/Gen/Guards.lean on every run and the model is proved to follow that table; tie: outcome "
          "(schema or exception class) of model and code compared on random chains (len<=4) and all ordered method pairs; search: "
          "exception type, self-consistency of fixed values via the real validate, re-declaration on the real code.",
